@@ -28,7 +28,7 @@ TEXT = {
     'design_ref': '§7.6',
     'note': NOTE_COMMON,
     'technique': 'Lean 4 proof (convexity of clamped interpolation, per-step inequalities, induction over traces) + '
-                 'bit-exact differential correspondence',
+                 'bit-exact differential correspondence + translator tie (the straight-line powertrain kernels are re-translated from the Rust text on every run and proved equal to the model)',
     'text': 'Kernel-checked: clamped 1-D interpolation stays within the map range without assuming a sorted grid '
             '(interp1d_range), trilinear interpolation likewise (interp3d_range); hence every efficiency is in (0,1]; for each '
             'component and both flow directions loss >= 0 and out <= in; dynamic braking is >= 0 and zero unless braking is '
